@@ -75,6 +75,30 @@ let () =
             | None -> print_endline "A none"
             | Some (g, (((a, r), st), c)) -> Printf.printf "A guard=%d args=%d rets=%d stack=%d consts=%d\n" (b g) (b a) (b r) (b st) (b c))
          | _ -> print_endline "BAD")
+      | "W" :: rest ->
+        (* W target(0 x64 | 1 a64) nwork w.. nvars (cur csz csg out osz osg)*  -> the instruction list the MODEL of the solver emits,
+           and the verified validator's verdict on it *)
+        let rest = ref rest in
+        let next () = match !rest with x :: r -> rest := r; x | [] -> failwith "eol" in
+        let t = if next () = "0" then C.TX64 else C.TA64 in
+        let nw = int_of_string (next ()) in
+        let work = List.init nw (fun _ -> cz_of_string (next ())) in
+        let nv = int_of_string (next ()) in
+        let vs = List.init nv (fun _ ->
+          let cur = cz_of_string (next ()) in let csz = cz_of_string (next ()) in let csg = next () = "1" in
+          let out = cz_of_string (next ()) in let osz = cz_of_string (next ()) in let osg = next () = "1" in
+          C.init_var cur csz csg out osz osg) in
+        let loc_s = function C.Reg (g, i) -> Printf.sprintf "R %s %s" (zs g) (zs i) | C.Mem (a, o) -> Printf.sprintf "M %s %s" (zs a) (zs o) in
+        let inst_s = function
+          | C.IExt (d, s, e, n, w, wz) -> Printf.sprintf "X %s %s %s %s %s %s" (loc_s d) (loc_s s) (match e with C.ES -> "S" | C.EZ -> "Z") (zs n) (zs w) (zs wz)
+          | C.IXchg (a, b, w, wz) -> Printf.sprintf "G %s %s %s %s" (loc_s a) (loc_s b) (zs w) (zs wz) in
+        (match C.solve t work vs with
+         | C.SOk ms ->
+           let mvs = List.map C.move_of vs in
+           let allowed = List.map (fun r -> C.Reg (zi 0, r)) work in
+           Printf.printf "W ok valid=%d,wf=%d %s\n" (if C.validate_bytes mvs allowed ms then 1 else 0) (if C.wf_inputb work vs then 1 else 0) (join " ; " (List.map inst_s ms))
+         | C.SErr -> print_endline "W err"
+         | C.SFuel -> print_endline "W fuel")
       | "V" :: rest ->
         (* V nm (src dst sbits ssigned dbits int)*nm  na (loc)*na  ni (X dst src e n w wz | G a b w wz)*ni  -> validate *)
         let rest = ref rest in
